@@ -98,7 +98,7 @@ pub fn check_adapter_history(h: &History, cc: &mut CaseCtx) -> CheckResult {
                     let k = KSecretKey::<44>::from_str(&secret).map_err(|_| Box::new(exec::ForeignError("secret".into())) as tower::BoxError)?;
                     Ok(GetSigningKeyResponse::builder().signing_key(k.to_ksigning(req.request_date(), req.region(), req.service())).build().map_err(|e| Box::new(exec::ForeignError(e.to_string())) as tower::BoxError)?)
                 }
-                13 => Err(Box::new(exec::ForeignError("backend unreachable".into())) as tower::BoxError),
+                13 => Err(exec::foreign_error(&format!("backend unreachable ({})", secret.len() % 8))),
                 k => Err(Box::new(exec::make_sig_err(Kind::ALL[(k as usize - 1) % 12], &format!("provider says no #{} ({})", k, secret.len() % 16))) as tower::BoxError),
             }
         }
@@ -182,6 +182,8 @@ fn answer_of(code: u8) -> Answer {
 fn answer_of_step(code: u8, salt: u8) -> Answer {
     match answer_of(code) {
         Answer::SigErr(k, m) => Answer::SigErr(k, format!("{} ({})", m, salt % 16)),
+        // the concrete type of a foreign error follows the number as well
+        Answer::Foreign(m) => Answer::Foreign(format!("{} ({})", m, salt % 8)),
         other => other,
     }
 }
